@@ -163,6 +163,7 @@ def chk_compat(nm: int, medges: list, mrad: list, W: int, crad: list, ops: list,
     return 'is_compatible:rejects-compatible'
 
 
+@rt.natively
 def part_a(bits: list, ints: list) -> bool:
     rt.begin()
     S = rt.SHARD
